@@ -180,7 +180,7 @@ def _is_marker_line(case, lines, i):
 # (b) generated programs
 
 _STYLES = ['direct', 'direct', 'lambda', 'listcomp', 'method', 'multistmt', 'multiline', 'recursive', 'eval', 'exec', 'genexpr', 'nested_def',
-           'reraise', 'finally', 'with']
+           'reraise', 'finally', 'with', 'registered', 'registered']
 _EXC = ['ValueError', 'KeyError', 'TypeError', 'ZeroDivisionError', 'Custom', 'CustomStr', 'Local', 'CustomMain', 'CustomPkg', 'IndexError', 'RuntimeError']
 _MSG = ['empty', 'one', 'multi', 'nonstr', 'two_args', 'colon', 'unicode', 'none_arg']
 
@@ -248,6 +248,16 @@ def gen_program(case):
             L += ['    try:', '        return %s(x)' % nxt, '    finally:', '        marker = 2', '        marker += 1']
         elif style == 'with':
             L += ['    with open(__file__) as fh:', '        return %s(x)' % nxt]
+        elif style == 'registered':
+            # code compiled under a pseudo file name whose source IS known to linecache (what doctest, IPython and code
+            # generators do): the interpreter shows these source lines
+            L += ["    src = 'def relay(x, nxt):\\n    y = x\\n    return nxt(y)\\n'",
+                  "    name = '<generated-%d>'" % i,
+                  "    import linecache",
+                  "    linecache.cache[name] = (len(src), None, src.splitlines(True), name)",
+                  "    ns = {}",
+                  "    exec(compile(src, name, 'exec'), ns)",
+                  "    return ns['relay'](x, %s)" % nxt]
         elif style == 'nested_def':
             L += ['    def inner(y):', '        return %s(y)' % nxt, '    return inner(x)']
         else:
